@@ -10,6 +10,7 @@ from sqllineage.core.metadata_provider import MetaDataProvider
 from sqllineage.core.models import Path, SubQuery, Table
 from sqllineage.core.parser.sqlfluff.models import SqlFluffSubQuery, SqlFluffTable
 from sqllineage.core.parser.sqlfluff.utils import (
+    SUBQUERY_CLAUSE_TYPES,
     find_from_expression_element,
     find_table_identifier,
     is_subquery,
@@ -80,12 +81,7 @@ class BaseExtractor:
                 ],
                 [],
             )
-        if segment.type in [
-            "select_clause",
-            "from_clause",
-            "where_clause",
-            "having_clause",
-        ]:
+        if segment.type in ["select_clause", "from_clause"] + SUBQUERY_CLAUSE_TYPES:
             result = cls._parse_subquery(list_subqueries(segment))
         elif is_subquery(segment):
             # Parenthesis for SubQuery without alias, this is valid syntax for certain SQL dialect
